@@ -1242,7 +1242,13 @@ pub fn c13(p: &Params) -> Outcome {
                     let n = *rng.pick(&nums);
                     bits::write(&mut payload, 0, 12, n as u128);
                 }
-                let f = crc::frame(&payload);
+                // reserved header bits: zero, or any of the 63 other settings (every one of them
+                // for the shortest payloads)
+                let res: u8 = if l < 4 { ((k * 13 + l * 7) % 64) as u8 } else if k % 3 == 1 { rng.range(1, 63) as u8 } else { 0 };
+                if res != 0 {
+                    ctx.count("frames_with_reserved_bits_set");
+                }
+                let f = crc::frame_with_reserved(&payload, res);
                 let mut sfx = suffix_set(&mut rng);
                 if k == 0 || (l < 8 && k < 6) {
                     sfx.extend(huge_suffixes(&mut rng, f.len()));
